@@ -478,6 +478,18 @@ def soleChain : Node → List Node
   | .tag _ _ _ _ [k] => k :: soleChain k
   | _ => []
 
+/-- the "polymorphic" form of the loop: it keeps going in the same frame through children whose class is exactly `Tag`
+    but ASKS a child of a Tag subclass for its own `.string` (a new call). `Node.tag` stands for any instance of `Tag`
+    — the library class or a user subclass made through `element_classes`, `isSub` tells which —; the getter bs4 has
+    (`isinstance(child, Tag)`: stay in the loop) is the case `isSub = fun _ => false`. -/
+def stringPoly (isSub : Node → Bool) : Node → Nat
+  | .str _ => 1
+  | .tag _ _ _ _ [] => 1
+  | .tag _ _ _ _ [k] => (match k with
+      | .str _ => 1
+      | .tag .. => if isSub k then 1 + stringPoly isSub k else stringPoly isSub k)
+  | .tag _ _ _ _ (_ :: _ :: _) => 1
+
 def stringDepth (cfg : Cfg) (t : Node) : Nat :=
   if cfg.stringLoop then call (loop0 (soleChain t)) else stringRec t
 
